@@ -70,9 +70,11 @@ fn gen_lib(src: &mut Src) -> MLib {
         let na = if has_layout { src.usize_in(0, 3) } else { 0 };
         let ncut = if has_layout { src.usize_in(0, 3) } else { 0 };
         cells.push(MCell {
-            name: format!("tc{}", ci),
+            // names may begin or end with blanks: they are data
+            name: { let pat = *src.pick(&["tc{}", "tc{}", "tc{}", "tc{} ", " tc{}", "tc{}\t"]); pat.replace("{}", &ci.to_string()) },
             has_layout,
-            has_abs: !has_layout || src.prob(1, 4),
+            // a cell without a layout usually has an abstract; one time in four it has no view at all (a black box)
+            has_abs: if has_layout { src.prob(1, 4) } else { !src.prob(1, 4) },
             ox,
             oy,
             metals: src.usize_in(0, 5),
@@ -129,7 +131,11 @@ fn read_back(lib: &tet::library::Library) -> Result<Vec<MCell>, String> {
         let (outline, metals) = match (&c.layout, &c.abs) {
             (Some(l), _) => (l.outline.clone(), l.metals),
             (None, Some(a)) => (a.outline.clone(), a.metals),
-            (None, None) => return Err(format!("cell {} has no view", c.name)),
+            (None, None) => {
+                // a black box: nothing but its name
+                out.push(mc);
+                continue;
+            }
         };
         if let (Some(l), Some(a)) = (&c.layout, &c.abs) {
             if l.outline != a.outline || l.metals != a.metals {
@@ -144,7 +150,7 @@ fn read_back(lib: &tet::library::Library) -> Result<Vec<MCell>, String> {
                 let i = ip.read().map_err(|_| "lock")?;
                 let loc = i.loc.abs().map_err(|e| format!("{:?}", e))?;
                 let tname = i.cell.read().map_err(|_| "lock")?.name.clone();
-                let target: usize = tname.strip_prefix("tc").and_then(|s| s.parse().ok()).ok_or("target name")?;
+                let target: usize = tname.trim().strip_prefix("tc").and_then(|s| s.parse().ok()).ok_or("target name")?;
                 mc.insts.push(MInst { name: i.inst_name.clone(), target, loc: (loc.x.num as i64, loc.y.num as i64), rh: i.reflect_horiz, rv: i.reflect_vert });
             }
             for a in &l.assignments {
@@ -200,6 +206,12 @@ fn roundtrip_case(src: &mut Src, ctx: &mut Ctx) -> Result<(), String> {
     want.sort_by(|a, b| a.name.cmp(&b.name));
     // the statement lists what is preserved, not in which order: compare the lists as multisets
     for c in got.iter_mut().chain(want.iter_mut()) {
+        if !c.has_layout && !c.has_abs {
+            // a cell without any view carries nothing but its name (the model's outline was never built)
+            c.ox.clear();
+            c.oy.clear();
+            c.metals = 0;
+        }
         c.insts.sort_by(|a, b| format!("{:?}", a).cmp(&format!("{:?}", b)));
         c.assigns.sort();
         c.cuts.sort();
